@@ -17,12 +17,13 @@ import Driver.Reuse
 import Driver.Ignore
 import Driver.Conc
 import Driver.Recursion
+import Driver.Barrier
 open Lean
 namespace Driver
 
 def dispatch (j : Json) : Json :=
   let op := str j "op"
-  match (C08.run op j <|> Values.run op j <|> Deps.run op j <|> Storage.run op j <|> Index.run op j <|> Paths.run op j <|> Creds.run op j <|> Prov.run op j <|> ChartIO.run op j <|> Schema.run op j <|> Render.run op j <|> Ledger.run op j <|> Cluster.run op j <|> Hooks.run op j <|> Reuse.run op j <|> Ignore.run op j <|> Conc.run op j <|> Recursion.run op j) with
+  match (C08.run op j <|> Values.run op j <|> Deps.run op j <|> Storage.run op j <|> Index.run op j <|> Paths.run op j <|> Creds.run op j <|> Prov.run op j <|> ChartIO.run op j <|> Schema.run op j <|> Render.run op j <|> Ledger.run op j <|> Cluster.run op j <|> Hooks.run op j <|> Reuse.run op j <|> Ignore.run op j <|> Conc.run op j <|> Recursion.run op j <|> Barrier.run op j) with
   | some r => r
   | none => Json.mkObj [("error", jstr s!"unknown-op {op}")]
 
